@@ -369,6 +369,58 @@ def part_convert(ctx, shard):
                         trunc = float(g) == 0.0
                         ctx.violation(base + ("|mode=integer-truncated" if trunc else "|mode=wrong-value"), case, str(float(want)), repr(g))
                         break
+        # spectral, every ordered pair of its four members (w8: wavenumber -> wavelength used an integer reciprocal): exact
+        # rational expectation from the library's own h and c; integer data only - the float rules are C09's
+        if d.kind in "iu":
+            from unyt import physical_constants as _pc
+
+            hF, cF = Fraction(float(_pc.h_mks.v)), Fraction(float(_pc.clight.to("m/s").v))
+            MEMB = {"L": ("cm", Fraction(1, 100)), "K": ("1/cm", Fraction(100)), "F": ("Hz", Fraction(1)), "E": ("J", Fraction(1))}
+            SPEC = {
+                ("L", "K"): lambda x: 1 / x, ("L", "F"): lambda x: cF / x, ("L", "E"): lambda x: hF * cF / x,
+                ("K", "L"): lambda x: 1 / x, ("K", "F"): lambda x: cF * x, ("K", "E"): lambda x: hF * cF * x,
+                ("F", "L"): lambda x: cF / x, ("F", "K"): lambda x: x / cF, ("F", "E"): lambda x: hF * x,
+                ("E", "L"): lambda x: hF * cF / x, ("E", "K"): lambda x: x / (hF * cF), ("E", "F"): lambda x: x / hF,
+            }
+            for (ms, mt), law in SPEC.items():
+                (us, ss), (ut, st_) = MEMB[ms], MEMB[mt]
+                for form, vals in groups:
+                    nz = [v for v in vals if v not in (0, 0.0) and not isinstance(v, complex) and abs(v) < 2**53]
+                    if not nz:
+                        continue
+                    for rname in ("to_equivalent", "to(equivalence=)", "to_value(equivalence=)", "convert_to_equivalent"):
+                        ctx.count("evaluations")
+                        use = nz[:1] if form == "scalar" else nz
+                        q = unyt_quantity(np.array(use[0], dtype=dt)[()], us) if form == "scalar" else unyt_array(np.array(use, dtype=dt), us)
+                        f = {
+                            "to_equivalent": lambda: q.to_equivalent(ut, "spectral"),
+                            "to(equivalence=)": lambda: q.to(ut, equivalence="spectral"),
+                            "to_value(equivalence=)": lambda: q.to_value(ut, equivalence="spectral"),
+                            "convert_to_equivalent": lambda: (q.convert_to_equivalent(ut, "spectral"), q)[1],
+                        }[rname]
+                        st, r, warned = run_call(f)
+                        case = {"part": "convert", "dtype": dt, "route": rname, "from": us, "to": ut, "form": form, "values": [str(v) for v in use]}
+                        base = f"C17|equivalence|eq=spectral|pair={ms}->{mt}|route={rname}|dtype={kcls(dt)}|form={'scalar' if form == 'scalar' else 'array'}"
+                        ctx.outcome(("equiv-spectral-pairs", ms, mt, rname, dt, st, form))
+                        if st == "raise":
+                            ctx.count("equivalence_refused")
+                            ctx.note_set("equivalence_refused", f"spectral|{ms}->{mt}|{rname}|{dt}|{type(r).__name__}")
+                            continue
+                        ctx.decided(("equiv-spectral-pairs", ms, mt, rname, dt, form, tuple(map(str, use))))
+                        arr = np.asarray(r.d if isinstance(r, unyt_array) else r)
+                        if arr.dtype.kind != "f":
+                            ctx.violation(base + f"|mode=result-not-floating:{arr.dtype}", case, "float", str(arr.dtype))
+                            continue
+                        for v, g in zip(use, arr.reshape(-1)):
+                            want = law(Fraction(int(v)) * ss) / st_
+                            fi = np.finfo(arr.dtype)
+                            if abs(want) < float(fi.tiny) * 64 or abs(want) > float(fi.max) / 64:
+                                ctx.count("filtered_outside_normal_range")
+                                continue
+                            if not close(g, want, arr.dtype, [want]) and not close(g, want, target_dtype(dt), [want]):
+                                trunc = float(g) == 0.0 or float(g) == float(int(float(g)))
+                                ctx.violation(base + ("|mode=integer-truncated" if trunc else "|mode=wrong-value"), case, str(float(want)), repr(g))
+                                break
         # lorentz: velocity -> gamma needs v**2/c**2 - in floating point, whatever the width of the integer input
         if d.kind in "iuf" and d.itemsize >= 4:
             C_KMS = Fraction(299792458, 1000)
